@@ -54,6 +54,16 @@ def generate(rng, tier):
             else:
                 body = []
                 _gap(rng, body, 0.4)
+                if rng.random() < 0.15:
+                    # a second subscription of the same activity while the first is open
+                    if rng.random() < 0.5:
+                        body.append({"op": "get", "on": "C"})
+                    else:
+                        inner = []
+                        _gap(rng, inner, 0.3)
+                        body.append({"op": "iter", "on": "C", "body": inner,
+                                     "n": rng.randint(1, 2)})
+                    _gap(rng, body, 0.3)
                 op = {"op": "iter", "on": "C", "body": body}
                 if rng.random() < 0.5:
                     op["n"] = rng.randint(1, 3)
@@ -105,7 +115,17 @@ def check(rec):
 
     accepted = []        # [tick, value, optional]
     closed_at = None     # tick of first close
-    subs = {}            # consumer -> {"since": tick, "k": delivered count, "mode", "waiting"}
+    # consumer -> stack of its open subscriptions (an iteration whose body awaits the channel or
+    # iterates it again holds two at once): {"since": tick, "k": delivered count, "mode", "waiting"}
+    subs = {}
+
+    def top(actor):
+        stack = subs.get(actor)
+        return stack[-1] if stack else None
+
+    def pop(actor):
+        stack = subs.get(actor)
+        return stack.pop() if stack else None
     pending_put = {}
     ended, excs, started = set(), {}, set()
     last_time = None
@@ -129,7 +149,7 @@ def check(rec):
     for ev in rec.trace:
         tick, act, now, actor, kind = ev[:5]
         if last_time is not None and now != last_time:
-            for name, sub in subs.items():
+            for name, sub in [(n, x) for n, stack in subs.items() for x in stack]:
                 if sub["waiting"]:
                     owed = [v for _, v, opt in expected(sub)[sub["k"]:] if not opt]
                     if owed:
@@ -147,7 +167,7 @@ def check(rec):
             ended.add(actor)
         elif kind == "exc":
             excs[actor] = ev[5]
-            subs.pop(actor, None)
+            subs.pop(actor, None)        # every subscription of the actor is gone
         elif kind == "put+":
             pending_put[actor] = ev[6]
             if closed_at is None:
@@ -172,21 +192,22 @@ def check(rec):
             if closed_at is None:
                 closed_at = tick
         elif kind == "iter+":
-            subs[actor] = {"since": tick, "k": 0, "mode": "iter", "waiting": True,
-                           "closed_at_start": closed_at is not None}
+            subs.setdefault(actor, []).append(
+                {"since": tick, "k": 0, "mode": "iter", "waiting": True,
+                 "closed_at_start": closed_at is not None})
         elif kind == "iter.next":
-            if actor in subs:
-                subs[actor]["waiting"] = True
+            if top(actor) is not None:
+                top(actor)["waiting"] = True
         elif kind == "iter.item":
-            sub = subs.get(actor)
+            sub = top(actor)
             if sub is None:
                 bad("phantom", "%s received %r outside an iteration" % (actor, ev[6]))
             else:
                 sub["waiting"] = False
                 take(sub, actor, ev[6], "received")
         elif kind == "iter-":
-            sub = subs.pop(actor, None)
-            if sub is not None and sub["waiting"]:
+            sub = pop(actor)
+            if sub is not None and sub["waiting"] and not sub.get("torn"):
                 # ended by exhaustion: channel closed, everything owed was delivered
                 owed = [v for _, v, opt in expected(sub)[sub["k"]:] if not opt]
                 if closed_at is None:
@@ -194,14 +215,16 @@ def check(rec):
                 elif owed:
                     bad("lost", "%s's iteration ended although %r were put for it" % (actor, owed))
         elif kind == "iter!":
-            subs.pop(actor, None)
+            if top(actor) is not None:   # "iter-" follows (finally) and closes the subscription
+                top(actor)["torn"] = True
             if not excused(actor, tick):
                 bad("receive-failed", "%s: iteration raised %r" % (actor, ev[-1]))
         elif kind == "get+":
-            subs[actor] = {"since": tick, "k": 0, "mode": "get", "waiting": True,
-                           "closed_at_start": closed_at is not None}
+            subs.setdefault(actor, []).append(
+                {"since": tick, "k": 0, "mode": "get", "waiting": True,
+                 "closed_at_start": closed_at is not None})
         elif kind == "get-":
-            sub = subs.pop(actor, None)
+            sub = pop(actor)
             if sub is not None:
                 if sub["closed_at_start"]:
                     bad("get-on-closed", "%s: await on a closed channel returned %r"
@@ -211,7 +234,7 @@ def check(rec):
                     bad("not-first", "%s: await returned %r, not the first message put after it "
                         "began waiting" % (actor, ev[6]))
         elif kind == "get.closed":
-            sub = subs.pop(actor, None)
+            sub = pop(actor)
             if sub is not None:
                 owed = [v for _, v, opt in expected(sub) if not opt]
                 if closed_at is None:
@@ -220,7 +243,7 @@ def check(rec):
                     bad("lost", "%s saw StreamClosed although %r were put while it waited"
                         % (actor, owed))
         elif kind == "get!":
-            subs.pop(actor, None)
+            pop(actor)
             if not excused(actor, tick):
                 bad("receive-failed", "%s: await raised %r" % (actor, ev[-1]))
     for spec in rec.case["scenario"]["actors"]:
